@@ -89,9 +89,9 @@ def write_programs(tree, limit):
             progs.append('%s |= with_entries(.)' % P)
         else:
             progs.append('%s += [%s]' % (P, v))
-            progs.append('%s[0] = %s' % (pre, v2))
+            progs.append('%s[0] = %s' % (P, v2))
             progs.append('%s |= map(.)' % P)
-            progs.append('del(%s[0])' % pre)
+            progs.append('del(%s[0])' % P)
         if path:
             progs.append('del(%s)' % P)
             progs.append('%s = %s' % (P, v))
@@ -189,7 +189,7 @@ def is_container(v):
     return isinstance(v, Adt) and v.vname in ("Array", "Object")
 
 
-def rule_write(progs, tier, name="YQDOM(write)", n_quick=6, n_thorough=60, per_doc_quick=7, per_doc_thorough=40):
+def rule_write(progs, tier, name="YQDOM(write)", n_quick=6, n_thorough=20, per_doc_quick=7, per_doc_thorough=14):
     out = []
     for cfg, P in progs.items():
         res = RuleResult(name, cfg)
@@ -269,7 +269,7 @@ def rule_write(progs, tier, name="YQDOM(write)", n_quick=6, n_thorough=60, per_d
     return out
 
 
-def rule_syntax(progs, tier, name="YQDOM(syntax)", n_quick=8, n_thorough=80):
+def rule_syntax(progs, tier, name="YQDOM(syntax)", n_quick=8, n_thorough=30):
     from .yamlload import EDGE_INT_TREES
 
     out = []
